@@ -80,12 +80,48 @@ def norm_prog(prog):
     return out
 
 
-def fun_name(prog, fi) -> str:
+# Identifier shapes for attribute / method names ({} = the index).  Names that start with two underscores
+# and do not end with two are name-mangled by the compiler inside the class body (`self.__a1` is the
+# attribute `_C0__a1`): the renderer writes the short form inside the class, the test case (outside) the
+# mangled one.  `_` alone is a legal attribute name.
+ATTR_SHAPES = ["a{}", "_a{}", "_a{}", "__a{}", "a{}_", "_a{}_", "a_{}", "__a{}__", "_{}", "___a{}__", "_a_{}"]
+METH_SHAPES = ["m{}", "_m{}", "_m{}", "__m{}", "m{}_", "_m{}_", "m_{}", "__m{}__", "_m_{}"]
+
+
+def pick_names(rng: random.Random, nattr: int, nfun: int):
+    """`names` entry of a program: attribute names by index, method names by function index."""
+    plain = rng.random() < 0.15
+    attr = ["a%d" % i if plain or rng.random() < 0.2 else rng.choice(ATTR_SHAPES).format(i) for i in range(nattr)]
+    if nattr and rng.random() < 0.15:
+        attr[rng.randrange(nattr)] = "_"
+    meth = ["m%d" % i if plain or rng.random() < 0.3 else rng.choice(METH_SHAPES).format(i) for i in range(nfun)]
+    return {"attr": attr, "meth": meth}
+
+
+def mangled(name: str, cls: int) -> str:
+    """The name the compiler stores for identifier `name` inside `class C<cls>`."""
+    if name.startswith("__") and not name.endswith("__"):
+        return f"_C{cls}{name}"
+    return name
+
+
+def attr_name(prog, i, cls=None) -> str:
+    """Name of attribute i as written inside its class (cls None) or as seen from outside class cls."""
+    names = (prog.get("names") or {}).get("attr") or []
+    name = names[i] if i < len(names) else f"a{i}"
+    return name if cls is None else mangled(name, cls)
+
+
+def fun_name(prog, fi, outside=False) -> str:
     f = prog["funs"][fi]
     cls = f.get("cls", 0)
     if cls == 0:
         return f"f{fi}"
-    return "__init__" if prog.get("classes", [])[cls - 1]["init"] == fi else f"m{fi}"
+    if prog.get("classes", [])[cls - 1]["init"] == fi:
+        return "__init__"
+    names = (prog.get("names") or {}).get("meth") or []
+    name = names[fi] if fi < len(names) else f"m{fi}"
+    return mangled(name, cls - 1) if outside else name
 
 
 class MiniGen:
@@ -366,9 +402,11 @@ class MiniGen:
         asserts = sorted({i for i, t in enumerate(test) if r.random() < 0.4 and (
             "attr" in t or ("call" in t and not funs[t["call"]["f"]]["void"])
             or ("mcall" in t and not funs[t["mcall"]["f"]]["void"]))})
+        names = pick_names(r, max(k["nattr"] for k in classes), len(funs))
         for k in classes:
             del k["nattr"]
-        return {"ginit": ginit, "funs": funs, "classes": classes, "test": test, "asserts": asserts}
+        return {"ginit": ginit, "funs": funs, "classes": classes, "test": test, "asserts": asserts,
+                "names": names}
 
 
 REC_TEMPLATES = 3
@@ -428,11 +466,64 @@ def rec_module(rng: random.Random):
     return {"ginit": [], "funs": funs, "test": test, "asserts": [1] if rng.random() < 0.5 else []}
 
 
+AKEY_NAMES = ["_step", "step", "_double", "__init__", "__x", "_C0__x", "_", "__", "a_", "a_b", "_a_b_", "x", "a0",
+              "___", "_1", "value_", "__len__", "\u00e9_t", "_\u00e9"]
+
+
+def gen_akey(rng: random.Random):
+    """Pending attribute uses (address, name) and the address of an object being created: the code path
+    `_add_attribute_uses` -> `attr_uses` -> conversion in `check_explicit_data_dependency`."""
+    base = rng.choice([0x7F3A5C000000 + 16 * rng.randrange(1 << 24), rng.randrange(1, 1 << 16),
+                       rng.randrange(1, 1 << 44)])
+    addrs = [base, base] + [base + 16 * rng.randint(1, 60) for _ in range(rng.randint(0, 2))]
+    if rng.random() < 0.25:
+        addrs.append(base * 16 + rng.randrange(16))      # hex(base) is a proper prefix of this one's hex
+    if rng.random() < 0.15:
+        addrs.append(base // 16)
+
+    def name():
+        if rng.random() < 0.5:
+            return rng.choice(AKEY_NAMES)
+        first = rng.choice("__abxyzS")
+        return first + "".join(rng.choice("__ab1Z") for _ in range(rng.randint(0, 6)))
+
+    uses = [[rng.choice(addrs), name()] for _ in range(rng.randint(1, 6))]
+    created = 0 if rng.random() < 0.05 else rng.choice(addrs[:3])
+    return {"kind": "akey", "addr": created, "uses": uses}
+
+
+def run_akey(case):
+    """The real code: `DynamicSlicer._add_attribute_uses` on real `ExecutedAttributeInstruction`s, then
+    `DynamicSlicer.check_explicit_data_dependency` on the store of a freshly created object."""
+    from opcode import opmap
+
+    from pynguin.slicer.dynamicslicer import DynamicSlicer, SlicingContext
+    from pynguin.slicer.executedinstruction import ExecutedAttributeInstruction, ExecutedMemoryInstruction
+    from pynguin.slicer.executionflowbuilder import UniqueInstruction
+
+    slicer = DynamicSlicer({})
+    ctx = SlicingContext()
+    for j, (addr, name) in enumerate(case["uses"]):
+        slicer._add_attribute_uses(ctx, ExecutedAttributeInstruction(  # noqa: SLF001
+            file="sut.py", code_object_id=1, node_id=0, opcode=opmap["LOAD_ATTR"], argument=name, lineno=3,
+            instr_original_index=j, src_address=addr, arg_address=0x5000 + j, is_mutable_type=False,
+            is_method=False))
+    keys = sorted(ctx.attr_uses)
+    store = ExecutedMemoryInstruction(
+        file="sut.py", code_object_id=0, node_id=0, opcode=opmap["STORE_FAST"], argument="obj_0", lineno=1,
+        instr_original_index=2, arg_address=case["addr"], is_mutable_type=False, object_creation=True)
+    instr = UniqueInstruction(file="sut.py", name="STORE_FAST", code_object_id=0, node_id=0,
+                              instr_original_index=2, is_method=False, is_jump_target=False, arg="obj_0", lineno=1)
+    covered, names = slicer.check_explicit_data_dependency(ctx, store, instr)
+    return {"keys": keys, "names": sorted(names), "remaining": sorted(ctx.attr_uses), "covered": bool(covered),
+            "pending_addr": sorted(ctx.var_address_uses)}
+
+
 def r_recv(rv) -> str:
     return "self" if rv == "self" else f"v{rv['l']['i']}"
 
 
-def r_expr(e) -> str:
+def r_expr(e, an=None) -> str:
     if "k" in e:
         return str(e["k"]["n"]) if e["k"]["n"] >= 0 else f"({e['k']['n']})"
     if "l" in e:
@@ -440,18 +531,18 @@ def r_expr(e) -> str:
     if "g" in e:
         return f"G{e['g']['i']}"
     if "at" in e:
-        return f"{r_recv(e['at']['r'])}.a{e['at']['i']}"
+        return f"{r_recv(e['at']['r'])}.{an(e['at']['i']) if an else 'a%d' % e['at']['i']}"
     b = e["bin"]
-    return f"({r_expr(b['a'])} {BIN[b['op']]} {r_expr(b['b'])})"
+    return f"({r_expr(b['a'], an)} {BIN[b['op']]} {r_expr(b['b'], an)})"
 
 
-def r_cond(c) -> str:
-    return f"{r_expr(c['a'])} {CMP[c['op']]} {r_expr(c['b'])}"
+def r_cond(c, an=None) -> str:
+    return f"{r_expr(c['a'], an)} {CMP[c['op']]} {r_expr(c['b'], an)}"
 
 
-def r_tgt(t) -> str:
+def r_tgt(t, an=None) -> str:
     if "at" in t:
-        return f"{r_recv(t['at']['r'])}.a{t['at']['i']}"
+        return f"{r_recv(t['at']['r'])}.{an(t['at']['i']) if an else 'a%d' % t['at']['i']}"
     return f"v{t['l']['i']}" if "l" in t else f"G{t['g']['i']}"
 
 
@@ -460,6 +551,18 @@ def render(prog) -> str:
     prog = norm_prog(prog)
     lines: dict[int, str] = {}
     ng = len(prog["ginit"])
+
+    def an(i):
+        return attr_name(prog, i)
+
+    def R_expr(e):
+        return r_expr(e, an)
+
+    def R_tgt(t):
+        return r_tgt(t, an)
+
+    def R_cond(c):
+        return r_cond(c, an)
 
     def put(ln, text):
         assert ln not in lines, (ln, text, lines[ln])
@@ -471,15 +574,15 @@ def render(prog) -> str:
             if "asg" in s:
                 a = s["asg"]
                 e = a["e"]
-                tg = r_tgt(a["tg"])
+                tg = R_tgt(a["tg"])
                 if ("bin" in e and e["bin"]["op"] in ("add", "sub") and e["bin"]["a"] == a["tg"]
                         and a["ln"] % 2 == 0):
-                    put(a["ln"], f"{pad}{tg} {BIN[e['bin']['op']]}= {r_expr(e['bin']['b'])}")
+                    put(a["ln"], f"{pad}{tg} {BIN[e['bin']['op']]}= {R_expr(e['bin']['b'])}")
                 else:
-                    put(a["ln"], f"{pad}{tg} = {r_expr(e)}")
+                    put(a["ln"], f"{pad}{tg} = {R_expr(e)}")
             elif "ite" in s:
                 i = s["ite"]
-                put(i["ln"], f"{pad}if {r_cond(i['c'])}:")
+                put(i["ln"], f"{pad}if {R_cond(i['c'])}:")
                 block(i["a"], ind + 1)
                 if i["b"]:
                     first_b = min(stmt_lines(i["b"]))
@@ -487,26 +590,26 @@ def render(prog) -> str:
                     block(i["b"], ind + 1)
             elif "wh" in s:
                 w = s["wh"]
-                put(w["ln"], f"{pad}while {r_cond(w['c'])}:")
+                put(w["ln"], f"{pad}while {R_cond(w['c'])}:")
                 block(w["a"], ind + 1)
             elif "mcall" in s:
                 c = s["mcall"]
-                lhs = f"{r_tgt(c['tg'])} = " if c.get("tg") is not None else ""
+                lhs = f"{R_tgt(c['tg'])} = " if c.get("tg") is not None else ""
                 put(c["ln"], f"{pad}{lhs}{r_recv(c['r'])}.{fun_name(prog, c['f'])}"
-                             f"({', '.join(r_expr(x) for x in c['args'])})")
+                             f"({', '.join(R_expr(x) for x in c['args'])})")
             elif "new" in s:
                 c = s["new"]
-                put(c["ln"], f"{pad}{r_tgt(c['tg'])} = C{c['c']}({', '.join(r_expr(x) for x in c['args'])})")
+                put(c["ln"], f"{pad}{R_tgt(c['tg'])} = C{c['c']}({', '.join(R_expr(x) for x in c['args'])})")
             else:
                 c = s["call"]
-                put(c["ln"], f"{pad}{r_tgt(c['tg'])} = f{c['f']}({', '.join(r_expr(x) for x in c['args'])})")
+                put(c["ln"], f"{pad}{R_tgt(c['tg'])} = f{c['f']}({', '.join(R_expr(x) for x in c['args'])})")
 
     for ln, (i, n) in prog["ginit"]:
         put(ln, f"G{i} = {n}")
     for ci, k in enumerate(prog["classes"]):
         put(k["ln"], f"class C{ci}:")
         for ln, (i, n) in k["defaults"]:
-            put(ln, f"    a{i} = {n}")
+            put(ln, f"    {an(i)} = {n}")
     for fi, f in enumerate(prog["funs"]):
         ind = 1 if f["cls"] else 0
         pad = "    " * ind
@@ -516,7 +619,7 @@ def render(prog) -> str:
             put(f["defLn"] + 1, pad + "    global " + ", ".join(f"G{i}" for i in range(ng)))
         block(f["body"], ind + 1)
         if not f["void"]:
-            put(f["retLn"], f"{pad}    return {r_expr(f['ret'])}")
+            put(f["retLn"], f"{pad}    return {R_expr(f['ret'])}")
     last = max(lines)
     return "\n".join(lines.get(i, "") for i in range(1, last + 1)) + "\n"
 
@@ -551,9 +654,10 @@ def test_view(prog):
             out.append(("new", f"C{t['new']['c']}", list(t["new"]["args"])))
         elif "mcall" in t:
             m = t["mcall"]
-            out.append(("mcall", m["o"], fun_name(prog, m["f"]), list(m["args"])))
+            out.append(("mcall", m["o"], fun_name(prog, m["f"], outside=True), list(m["args"])))
         else:
-            out.append(("attr", t["attr"]["o"], f"a{t['attr']['i']}"))
+            cls = prog["test"][t["attr"]["o"]]["new"]["c"]
+            out.append(("attr", t["attr"]["o"], attr_name(prog, t["attr"]["i"], cls)))
     return out
 
 
@@ -711,7 +815,8 @@ class Prov:
                     f, selfv, cuses = c["f"], None, frozenset()
                 elif kind == "mcall":
                     o, dr = self.recv(c["r"], env)
-                    f, selfv, cuses = c["f"], (o, dr | here), dr   # the receiver selects the callee
+                    # the receiver and the class-level `def` found through it select the callee
+                    f, selfv, cuses = c["f"], (o, dr | here), dr | {self.p["funs"][c["f"]]["defLn"]}
                 else:
                     self.nobj += 1
                     o = self.nobj
@@ -1002,8 +1107,8 @@ class C09(PropertyCheck):
     prop_modules = ["PynguinModel.Props.C09"]
     extra_modules = ["PynguinModel.Model.PyMini"]
     driver = "Driver/C09.lean"
-    n_quick = 60
-    n_thorough = 600
+    n_quick = 70
+    n_thorough = 680
     n_search = 1500
     rule = ("non-trivial = some statement/assertion slice of the case is non-empty and a strict subset of "
             "the executed lines (the slicer had to decide something); distinct by program text + slices")
@@ -1014,6 +1119,9 @@ class C09(PropertyCheck):
         "attribute defaults / __init__ / methods over self.a<i>, void functions and methods; every test statement bound)",
         "checked lines of a test (compute_statement_checked_lines) = union of the statements' slice lines, each "
         "statement's own trailing `return None` line excepted (_cleanse_included_implicit_return_none)",
+        "a value obtained through an instance (`obj.a`, `obj.m()`) depends on the class-level line (`a = n`, `def m`) "
+        "that defines the name when no store on the instance does; module-level `def f` lines and `def __init__` are "
+        "not part of the fragment's dependence relation",
     ]
     trusted_base_extra = [
         "CPython's sys.monitoring LINE/INSTRUCTION events on an un-instrumented copy define 'executed'",
@@ -1030,7 +1138,9 @@ class C09(PropertyCheck):
     # ---- generation ---------------------------------------------------------------------------
     def gen_case(self, rng: random.Random):
         k = rng.random()
-        p_mini, p_obj, p_rec = (0.46, 0.38, 0.08) if self.tier == "quick" else (0.42, 0.32, 0.08)
+        p_mini, p_obj, p_rec = (0.40, 0.34, 0.06) if self.tier == "quick" else (0.38, 0.30, 0.07)
+        if k >= 0.86:
+            return gen_akey(rng)       # cheap (no module is imported)
         if k < p_mini:
             return {"kind": "mini", "prog": MiniGen(rng).module()}
         if k < p_mini + p_obj:
@@ -1063,6 +1173,8 @@ class C09(PropertyCheck):
     def impl(self, case):
         kind = case["kind"]
         self.count("kind:" + kind)
+        if kind == "akey":
+            return run_akey(case)
         frag = kind in FRAGMENT_KINDS
         if frag:
             src = render(case["prog"])
@@ -1105,9 +1217,17 @@ class C09(PropertyCheck):
     def model_line(self, case):
         if case["kind"] == "wide":
             return None
-        return jdump({"mini": {"c": {"prog": norm_prog(case["prog"]), "fuel": FUEL}}})
+        if case["kind"] == "akey":
+            return jdump({"akey": {"c": {"addr": case["addr"], "uses": case["uses"]}}})
+        prog = {k: v for k, v in norm_prog(case["prog"]).items() if k != "names"}
+        return jdump({"mini": {"c": {"prog": prog, "fuel": FUEL}}})
 
     def compare(self, case, io, mo) -> bool:
+        if case["kind"] == "akey":
+            # key construction (`combined_attr`), selection (`startswith`), name extraction, removal
+            return ("keys" in mo and io["keys"] == sorted(mo["keys"]) and io["names"] == sorted(mo["names"])
+                    and io["remaining"] == sorted(mo["remaining"]) and io["covered"] == mo["covered"]
+                    and mo["recovered"] == [n for _, n in case["uses"]])
         if io.get("timeout"):
             return True
         if "vals" not in mo:
@@ -1150,6 +1270,19 @@ class C09(PropertyCheck):
 
     # ---- the property itself on the implementation ----------------------------------------------
     def oracle(self, case, io):
+        if case["kind"] == "akey":
+            # a pending read of `obj.<name>` is a dependence on the class-level definition of <name>: at the
+            # creation of obj the slicer must go on looking for exactly that name
+            if not case["addr"]:
+                return []
+            need = {n for a, n in case["uses"] if a == case["addr"]}
+            lost = sorted(need - set(io["names"]))
+            if lost:
+                return [Failure({"part": "c-dependence-complete", "class": "attribute-name-not-recovered"},
+                                f"pending attribute uses {io['keys']}: at the creation of the object at "
+                                f"{hex(case['addr'])} the slicer looks for the class-level names {io['names']}; "
+                                f"the definitions of {lost} (read through that object) are never looked for")]
+            return []
         if io.get("timeout"):
             if io.get("fragment"):
                 # a terminating test on a program of the fragment: the execution ended without a result, i.e.
@@ -1241,6 +1374,8 @@ class C09(PropertyCheck):
                         f"trailing `return None`) but the test's checked lines {io['checked']} lack them")]
 
     def classify(self, case, io):
+        if case["kind"] == "akey":
+            return jdump(["akey", io["keys"], io["names"]]) if io["names"] and io["remaining"] else None
         if io.get("timeout"):
             return None
         executed = set(io["executed"])
